@@ -634,48 +634,94 @@ impl Scan {
     }
 }
 
+/// `STACK_BUDGET` in bytes: the usize constants of helpers.rs and runtime.rs are evaluated over
+/// literals, known constants, `+ - *` and parentheses (a later definition wins: the non-wasm one follows
+/// the wasm one).
 fn stack_budget(src: &str, helpers: &str) -> u64 {
+    let mut defs: Vec<(String, String)> = Vec::new();
+    for text in [drop_hooks(helpers), drop_hooks(src)] {
+        let st = String::from_utf8_lossy(&strip(&text)).to_string();
+        let mut from = 0;
+        while let Some(p) = st[from..].find("const ") {
+            let at = from + p;
+            from = at + 6;
+            if at > 0 && is_ident(st.as_bytes()[at - 1]) {
+                continue;
+            }
+            let rest = &st[at + 6..];
+            let (Some(c), Some(e), Some(end)) = (rest.find(':'), rest.find('='), rest.find(';')) else { continue };
+            if !(c < e && e < end) || !rest[c + 1..e].trim().starts_with("usize") {
+                continue;
+            }
+            defs.push((rest[..c].trim().to_string(), rest[e + 1..end].trim().to_string()));
+        }
+    }
     let mut consts: BTreeMap<String, u64> = BTreeMap::new();
-    for _ in 0..4 {
-        for line in helpers.lines() {
-            let l = line.trim();
-            if let Some(rest) = l.strip_prefix("pub const ") {
-                if let (Some(c), Some(e)) = (rest.find(':'), rest.find('=')) {
-                    let name = rest[..c].trim().to_string();
-                    let expr = rest[e + 1..].trim().trim_end_matches(';');
-                    if let Some(v) = eval_product(expr, &consts) {
-                        consts.insert(name, v);
-                    }
-                }
+    for _ in 0..6 {
+        for (k, e) in &defs {
+            if let Some(v) = const_eval(e, &consts) {
+                consts.insert(k.clone(), v);
             }
         }
     }
-    // the non-wasm definition: the last `const STACK_BUDGET` in the file
-    let mut val = 0;
-    for line in src.lines() {
-        let l = line.trim();
-        if let Some(rest) = l.strip_prefix("const STACK_BUDGET") {
-            if let Some(e) = rest.find('=') {
-                if let Some(v) = eval_product(rest[e + 1..].trim().trim_end_matches(';'), &consts) {
-                    val = v;
-                }
-            }
-        }
-    }
-    val
+    consts.get("STACK_BUDGET").copied().unwrap_or(0)
 }
 
-fn eval_product(expr: &str, consts: &BTreeMap<String, u64>) -> Option<u64> {
-    let mut v = 1u64;
-    for f in expr.split('*') {
-        let f = f.trim().replace('_', "");
-        if let Ok(n) = f.parse::<u64>() {
-            v *= n;
+fn const_eval(expr: &str, consts: &BTreeMap<String, u64>) -> Option<u64> {
+    let mut toks: Vec<String> = Vec::new();
+    let b = expr.as_bytes();
+    let mut i = 0;
+    while i < b.len() {
+        if b[i].is_ascii_whitespace() {
+            i += 1;
+        } else if is_ident(b[i]) {
+            let st = i;
+            while i < b.len() && is_ident(b[i]) {
+                i += 1;
+            }
+            toks.push(expr[st..i].to_string());
         } else {
-            v *= *consts.get(&f)?;
+            toks.push((b[i] as char).to_string());
+            i += 1;
         }
     }
-    Some(v)
+    fn atom(t: &[String], p: &mut usize, c: &BTreeMap<String, u64>) -> Option<i128> {
+        let tok = t.get(*p)?.clone();
+        *p += 1;
+        if tok == "(" {
+            let v = add(t, p, c)?;
+            if t.get(*p)? != ")" {
+                return None;
+            }
+            *p += 1;
+            return Some(v);
+        }
+        if tok.as_bytes()[0].is_ascii_digit() {
+            return tok.replace('_', "").parse::<i128>().ok();
+        }
+        c.get(&tok).map(|v| i128::from(*v))
+    }
+    fn mul(t: &[String], p: &mut usize, c: &BTreeMap<String, u64>) -> Option<i128> {
+        let mut v = atom(t, p, c)?;
+        while t.get(*p).is_some_and(|x| x == "*") {
+            *p += 1;
+            v *= atom(t, p, c)?;
+        }
+        Some(v)
+    }
+    fn add(t: &[String], p: &mut usize, c: &BTreeMap<String, u64>) -> Option<i128> {
+        let mut v = mul(t, p, c)?;
+        while t.get(*p).is_some_and(|x| x == "+" || x == "-") {
+            let plus = t[*p] == "+";
+            *p += 1;
+            let w = mul(t, p, c)?;
+            v = if plus { v + w } else { v - w };
+        }
+        Some(v)
+    }
+    let mut p = 0;
+    let v = add(&toks, &mut p, consts)?;
+    if p == toks.len() && v >= 0 { u64::try_from(v).ok() } else { None }
 }
 
 // ---------------------------------------------------------------------------------------------
